@@ -793,3 +793,479 @@ class C05(Base):
         f = {"recvh": ["ack", "hreq"], "recv": ["ack", "req"], "msgh": ["res", "hreq"]}
         return [Stream("S2-recorded-requests", c05_lines(r, toks, self.n(tier, 150, 1500)), fields=f, oracle=c05_unrouted_oracle)] + \
             history_stream("S3-typed-events", 5, tier, seed, 120, 500, {"recv": ["ack", "req"]}, None, n_hist_quick=1, n_hist_thorough=4, p_admin=5, p_deposit=3, p_query=0, p_reimport=0)
+
+
+# ----------------------------------------------------------------------------------------------- C06
+
+POOL = "swap-pool-account-01".encode()
+
+
+def swap_action():
+    a = fee_action([])
+    a["id"] = "ACTION_SWAP"
+    return a
+
+
+def c06_lines(r, n):
+    lines, toks = scen.base_setup()
+    lines.append("deposit %s %s %d" % (hx(POOL), hx("uother"), 10 ** 30))
+    lines.append("deposit %s %s %d" % (hx(POOL), hx("uusdc"), 10 ** 30))
+    fee1 = fee_action([(U[2], "b", 1000)])
+    fee2 = fee_action([(U[3], "a", 777), (U[2], "b", 50)])
+    orders = [[fee1], [swap_action()], [fee1, swap_action()], [swap_action(), fee1], [swap_action(), fee2], [fee1, fee2], [swap_action(), swap_action()],
+              [fee1, swap_action(), fee2], [swap_action(), fee1, swap_action()], []]
+    rules = [(1, 1, "uother"), (2, 1, "uother"), (1, 3, "uother"), (1, 1, "uusdc"), (3, 2, "uusdc"), (0, 1, "uother"), (1, 10 ** 7, "uother")]
+    routes = [int_fwd(U[1]), cctp_fwd(domain=0)]
+    for num, den, dn in rules:
+        lines.append("swapctl %d %d %s" % (num, den, hx(dn)))
+        for acts in orders:
+            for rt in routes:
+                for amt in (10 ** 6, 10001, 7):
+                    lines.append(orb_pkt("recvh", amt, rt, acts, denom=r.choice(["uusdc", "uusdc", "uother"])))
+    for _ in range(n):
+        num, den, dn = r.choice(rules)
+        lines.append("swapctl %d %d %s" % (num, den, hx(dn)))
+        acts = r.choice(orders)
+        lines.append(orb_pkt("recvh", scen.rand_amount(r) % 10 ** 20 + 1, r.choice(routes), acts, denom=r.choice(DENOMS)))
+    return lines
+
+
+def c06_oracle(steps):
+    """each action sees the coin left by its predecessor; the forwarder sends the coin left by the last action"""
+    out = []
+    rule = (1, 1, "uother")
+    for s in steps:
+        if s.op == "swapctl" and s.impl_raw == "ok":
+            f = s.line.split(" ")
+            rule = (int(f[1]), int(f[2]), unhx(f[3]).decode())
+        if s.op != "recvh":
+            continue
+        p = packet_of(s.line)
+        if not p["payload"] or not receiver_is_orbiter(p):
+            continue
+        acts = p["payload"].get("pre_actions") or []
+        ids = [a.get("id") for a in acts if isinstance(a, dict)]
+        if len(set(ids)) != len(ids):
+            if s.impl.get("ack") == "ok":
+                out.append((s.i, "duplicate: a payload repeating an action identifier was executed: %s" % ids))
+            continue
+        if s.impl.get("ack") != "ok":
+            continue
+        amt = parse_go_int(p["ftpd"]["amount"])
+        dn = p["ftpd"]["denom"][len(p["src_port"] + "/" + p["src_chan"] + "/"):]
+        expect_swaps = []
+        fee_total = {}
+        for a in acts:
+            if a.get("id") == "ACTION_SWAP":
+                o = amt * rule[0] // rule[1]
+                expect_swaps.append("swap:in=%s:%d:out=%s:%d" % (hx(dn), amt, hx(rule[2]), o))
+                amt, dn = o, rule[2]
+            else:
+                tot = 0
+                for fi in a["attributes"]["fees_info"]:
+                    if "basis_points" in fi:
+                        v = amt * fi["basis_points"]["value"] // 10000
+                    else:
+                        v = int(fi["amount"]["value"])
+                    if v > 0:
+                        tot += v
+                        ra = decode_addr(fi["recipient"]).hex()
+                        fee_total[(ra, dn)] = fee_total.get((ra, dn), 0) + v
+                amt -= tot
+        reqs = (s.impl.get("hreq") or "-").split(";")
+        got_swaps = [x for x in reqs if x.startswith("swap:")]
+        if got_swaps != expect_swaps:
+            out.append((s.i, "order: swap controller saw %s, payload order implies %s" % (got_swaps, expect_swaps)))
+        bridge = [x for x in reqs if not x.startswith("swap:")]
+        if len(bridge) == 1:
+            b = bridge[0]
+            ok = ("amount=%d:" % amt in b and ("burn=%s" % hx(dn)) in b) or ("coins=%s=%d" % (hx(dn), amt)) in b
+            if not ok:
+                out.append((s.i, "final-coin: forwarded %s, the last action left %d %s" % (b[-120:], amt, dn)))
+        delta = parse_delta(s.impl.get("bal"))
+        for (ra, d), v in fee_total.items():
+            # the internal recipient may coincide with a fee recipient
+            if delta.get((ra, d), 0) < v:
+                out.append((s.i, "fee-base: recipient %s credited %d %s, the running amount implies %d" % (ra[:8], delta.get((ra, d), 0), d, v)))
+    return out
+
+
+@prop
+class C06(Base):
+    id = "C06"
+    assumptions = C03.assumptions + ["the denomination-changing controller registered under ACTION_SWAP is the harness's scripted one; the theorems quantify over arbitrary controllers"]
+
+    def streams(self, tier, seed):
+        r = Rng(seed * 1000 + 6)
+        f = {"recvh": ["ack", "hreq", "bal", "st"]}
+        return [Stream("S2-two-controllers", c06_lines(r, self.n(tier, 60, 800)), fields=f, oracle=c06_oracle)]
+
+
+# ----------------------------------------------------------------------------------------------- C07
+
+def c07_lines(r, n):
+    lines, toks = scen.base_setup()
+    goodmemo = memo(int_fwd(U[1]), [fee_action([(U[2], "b", 100)])])
+    recvs = [U[0], U[1], b32(DUST_BYTES), "", "garbage", "cosmos" + ORB[5:], ORB + "x", b32(bytes(20)), b32(bytes(32))]
+    denoms = ["transfer/channel-7/uusdc", "transfer/channel-7/uother", "uatom", "transfer/channel-3/uatom", "transfer/channel-7/transfer/channel-3/uatom", "transfer/channel-7/x", "ibc/ABC", ""]
+    memos = ["", goodmemo, "{}", "hello", "{\"orbiter\":{}}", "{\"forward\":{\"receiver\":\"x\"}}"]
+    for rc in recvs:
+        for dn in denoms:
+            for m in memos[:3] if rc != U[0] else memos:
+                lines.append(pkt_line("withoutmw", ftpd(dn, r.choice([1, 1000, 0, "x"]), rc, m)))
+    for b in scen.random_bytes_memos(r, n):
+        lines.append(pkt_line("withoutmw", b))
+    for b in [b"", b"null", b"[]", b"{}", b"{\"receiver\":\"" + U[0].encode() + b"\"}", b"{\"denom\":\"uatom\",\"amount\":\"5\",\"sender\":\"a\",\"receiver\":\"" + U[0].encode() + b"\"} trailing",
+              b"{\"denom\":\"uatom\",\"amount\":\"5\",\"sender\":\"a\",\"receiver\":\"" + U[0].encode() + b"\",\"extra\":1}"]:
+        lines.append(pkt_line("withoutmw", b))
+    # all valid channel / port identifiers on the source side; channel-N on the destination side
+    for sp, sc in [("transfer", "channel-0"), ("wasm.abc", "channel-99999"), ("ics20", "chan-free-form"), ("a.b_c+d-e#[f]<g>", "channel-18446744073709551615")]:
+        for dc in ["channel-0", "channel-1", "channel-18446744073709551615", "channel-007"]:
+            lines.append(pkt_line("withoutmw", ftpd(sp + "/" + sc + "/uusdc", 5, U[0], ""), src_port=sp, src_chan=sc, dst_chan=dc))
+            lines.append(pkt_line("withoutmw", ftpd("uatom", 5, U[0], goodmemo), src_port=sp, src_chan=sc, dst_chan=dc))
+    # interleave with state: pauses, params, real transfers, then again
+    lines.append(msg_line("PauseProtocol", AUTHORITY, hx("PROTOCOL_CCTP")))
+    lines.append(msg_line("PauseAction", AUTHORITY, hx("ACTION_FEE")))
+    lines.append(msg_line("UpdateParams", AUTHORITY, "16"))
+    lines.append(orb_pkt("recv", 1000, int_fwd(U[1])))
+    for rc in recvs[:4]:
+        for dn in denoms[:4]:
+            lines.append(pkt_line("withoutmw", ftpd(dn, 7, rc, goodmemo)))
+            lines.append(pkt_line("recv", ftpd(dn, 7, rc, goodmemo)))
+    # orbiter-addressed ones (no constraint, classification only)
+    lines.append(pkt_line("withoutmw", ftpd("transfer/channel-7/uusdc", 7, ORB, goodmemo)))
+    lines.append(pkt_line("withoutmw", ftpd("transfer/channel-7/uusdc", 7, ORB.upper(), goodmemo)))
+    for kind in ("ack", "timeout", "send", "writeack"):
+        for fail in ("0", "1"):
+            lines.append("cb %s %s %s %s" % (kind, hx(r.bytes(20)), hx(r.bytes(8)), fail))
+    return lines
+
+
+def c07_oracle(steps):
+    out = []
+    for s in steps:
+        if s.op == "withoutmw":
+            orb = s.model.get("orb")
+            if orb is None:
+                orb = "true" if receiver_is_orbiter(packet_of(s.line)) else "false"
+            if orb == "false" and s.impl.get("same") != "true":
+                out.append((s.i, "not-transparent: a packet not addressed to the orbiter is handled differently with the middleware: %s (ack with=%s without=%s)" % (
+                    s.impl.get("diff"), s.impl.get("ackmw"), s.impl.get("ackbare"))))
+        if s.op == "cb" and s.impl.get("same") != "true":
+            out.append((s.i, "callback: %s is not passed through unchanged" % s.line.split(" ")[1]))
+    return out
+
+
+@prop
+class C07(Base):
+    id = "C07"
+    assumptions = ["the byte-level equality (ack bytes, event list, dump of every KV store) is implementation-against-implementation differential evidence; the Lean theorem is the model equation",
+                   "destination channels range over channel-N (the only form ibc-go core assigns)"]
+
+    def streams(self, tier, seed):
+        r = Rng(seed * 1000 + 7)
+        f = {"withoutmw": ["ackmw", "ackbare"], "recv": ["ack", "bal", "st"], "msg": ["res", "st"], "cb": ["same"]}
+        return [Stream("S5-with-and-without-middleware", c07_lines(r, self.n(tier, 80, 800)), fields=f, oracle=c07_oracle)]
+
+
+# ----------------------------------------------------------------------------------------------- C08 / C09 / C10
+
+class PauseSpec:
+    """abstract pause state, applied from successful messages only (written from the property statement)"""
+    P = {"PROTOCOL_IBC": 1, "PROTOCOL_CCTP": 2, "PROTOCOL_HYPERLANE": 3, "PROTOCOL_INTERNAL": 4}
+    A = {"ACTION_FEE": 1, "ACTION_SWAP": 2}
+
+    def __init__(self):
+        self.protocols, self.cross, self.actions = set(), set(), set()
+
+    def snapshot(self):
+        return (frozenset(self.protocols), frozenset(self.cross), frozenset(self.actions))
+
+    def apply(self, line, ok):
+        f = line.split(" ")
+        rpc = f[1]
+        args = [unhx(x).decode("utf-8", "replace") for x in f[3:]] if rpc != "UpdateParams" else f[3:]
+        if not ok:
+            return
+        if rpc == "PauseProtocol":
+            self.protocols.add(self.P[args[0]])
+        elif rpc == "UnpauseProtocol":
+            self.protocols.discard(self.P[args[0]])
+        elif rpc == "PauseCrossChains":
+            if len(args) == 1:
+                self.protocols.add(self.P[args[0]])
+            for c in args[1:]:
+                self.cross.add((self.P[args[0]], c))
+        elif rpc == "UnpauseCrossChains":
+            if len(args) == 1:
+                self.protocols.discard(self.P[args[0]])
+            for c in args[1:]:
+                self.cross.discard((self.P[args[0]], c))
+        elif rpc == "PauseAction":
+            self.actions.add(self.A[args[0]])
+        elif rpc == "UnpauseAction":
+            self.actions.discard(self.A[args[0]])
+
+
+def dest_of(p):
+    fw = (p["payload"] or {}).get("forwarding") or {}
+    a = fw.get("attributes") or {}
+    pid = PauseSpec.P.get(fw.get("protocol_id"), fw.get("protocol_id"))
+    if a.get("@type") in (scen.CCTP_URL, scen.HYP_URL):
+        return pid, str(a.get("destination_domain", 0))
+    if a.get("@type") == scen.INT_URL:
+        return pid, "noble"
+    return pid, None
+
+
+def pause_oracle(steps):
+    out = []
+    spec = PauseSpec()
+    prev_st = None
+    for s in steps:
+        if s.op == "setup":
+            spec = PauseSpec()
+        if s.op == "msg":
+            ok = s.impl.get("res") == "ok"
+            before = spec.snapshot()
+            rpc = s.line.split(" ")[1]
+            f = s.line.split(" ")
+            signer = unhx(f[2]).decode("utf-8", "replace")
+            if rpc in ("PauseProtocol", "UnpauseProtocol", "PauseCrossChains", "UnpauseCrossChains", "PauseAction", "UnpauseAction"):
+                try:
+                    spec.apply(s.line, ok)
+                except KeyError:
+                    if ok:
+                        out.append((s.i, "bad-id: %s accepted an unknown identifier" % rpc))
+                    continue
+                if ok and spec.snapshot() == before and signer == AUTHORITY:
+                    out.append((s.i, "redundant: a redundant %s succeeded" % rpc))
+                if not ok and prev_st is not None and s.impl.get("st") != prev_st:
+                    out.append((s.i, "partial-batch: %s failed but the state changed" % rpc))
+                # the exported sets are exactly the spec's sets
+                st = s.impl.get("st", "")
+                got_p = set(int(x) for x in st.split(";")[0][4:-1].split(",") if x)
+                got_a = set(int(x) for x in st.split(";")[2][4:-1].split(",") if x)
+                got_c = set()
+                for x in st.split(";")[1][5:-1].split(","):
+                    if x:
+                        a, b = x.split("|")
+                        got_c.add((int(a), unhx(b).decode("utf-8", "replace")))
+                if got_p != spec.protocols or got_a != spec.actions or got_c != spec.cross:
+                    out.append((s.i, "state: after %s the stored pause sets are %s/%s/%s, the history implies %s/%s/%s" % (
+                        rpc, sorted(got_p), sorted(got_c), sorted(got_a), sorted(spec.protocols), sorted(spec.cross), sorted(spec.actions))))
+        if s.op in RECV_OPS and s.impl.get("ack") == "ok":
+            p = packet_of(s.line)
+            if p["payload"] and receiver_is_orbiter(p):
+                pid, cp = dest_of(p)
+                if pid in spec.protocols or (pid, cp) in spec.cross:
+                    out.append((s.i, "paused-forwarded: transfer to (%s,%s) executed while paused" % (pid, cp)))
+                for a in p["payload"].get("pre_actions") or []:
+                    aid = PauseSpec.A.get(a.get("id"), a.get("id")) if isinstance(a, dict) else None
+                    if aid in spec.actions:
+                        out.append((s.i, "paused-action: payload containing paused action %s executed" % aid))
+        if s.op == "query":
+            q = s.line.split(" ")
+            if q[1] == "PausedProtocols" and s.impl.get("res") == "ok":
+                got = set(int(x) for x in s.impl["out"][1:-1].split(",") if x)
+                if got != spec.protocols:
+                    out.append((s.i, "query: PausedProtocols reports %s, the history implies %s" % (sorted(got), sorted(spec.protocols))))
+            if q[1] == "PausedActions" and s.impl.get("res") == "ok":
+                got = set(int(x) for x in s.impl["out"][1:-1].split(",") if x)
+                if got != spec.actions:
+                    out.append((s.i, "query: PausedActions reports %s, the history implies %s" % (sorted(got), sorted(spec.actions))))
+            if q[1] == "IsProtocolPaused" and s.impl.get("res") == "ok":
+                pid = PauseSpec.P.get(unhx(q[2]).decode())
+                if (s.impl["out"] == "true") != (pid in spec.protocols):
+                    out.append((s.i, "query: IsProtocolPaused(%s)=%s disagrees with the history" % (pid, s.impl["out"])))
+            if q[1] == "IsActionPaused" and s.impl.get("res") == "ok":
+                aid = PauseSpec.A.get(unhx(q[2]).decode())
+                if (s.impl["out"] == "true") != (aid in spec.actions):
+                    out.append((s.i, "query: IsActionPaused(%s)=%s disagrees with the history" % (aid, s.impl["out"])))
+            if q[1] == "IsCrossChainPaused" and s.impl.get("res") == "ok":
+                pid = PauseSpec.P.get(unhx(q[2]).decode())
+                cp = unhx(q[3]).decode("utf-8", "replace")
+                if (s.impl["out"] == "true") != ((pid, cp) in spec.cross):
+                    out.append((s.i, "query: IsCrossChainPaused(%s,%s)=%s disagrees with the history" % (pid, cp, s.impl["out"])))
+            if q[1] == "PausedCrossChains" and s.impl.get("res") == "ok" and q[3:] == ["nopage"]:
+                pid = PauseSpec.P.get(unhx(q[2]).decode())
+                got = sorted(unhx(x).decode("utf-8", "replace") for x in s.impl["out"][1:-1].split(",") if x)
+                want = sorted(c for (pp, c) in spec.cross if pp == pid)
+                if len(want) <= 100 and got != want:
+                    out.append((s.i, "query: PausedCrossChains(%s) lists %s, the history implies %s" % (pid, got, want)))
+        if "st" in s.impl:
+            prev_st = s.impl["st"]
+    return out
+
+
+def pause_history(r, n, toks, actions_focus=False):
+    lines = []
+    cps = {"PROTOCOL_CCTP": ["0", "1", "5", "7", "01", "4294967295"], "PROTOCOL_HYPERLANE": ["1", "2", "9"], "PROTOCOL_INTERNAL": ["noble", "x", "a:b"], "PROTOCOL_IBC": ["channel-0", "channel-9"]}
+    tok = toks[0][0]
+    for _ in range(n):
+        k = r.below(100)
+        if k < 40:
+            kind = r.below(12)
+            signer = AUTHORITY if r.chance(9, 10) else r.choice([U[0], ORB, "", AUTHORITY.upper()])
+            if actions_focus:
+                kind = 8 + r.below(4) if r.chance(3, 4) else kind
+            if kind < 4:
+                lines.append(msg_line(r.choice(["PauseProtocol", "UnpauseProtocol"]), signer, hx(r.choice(PROTO_NAMES + ["PROTOCOL_UNSUPPORTED", "x"] if r.chance(1, 8) else PROTO_NAMES))))
+            elif kind < 8:
+                p = r.choice(PROTO_NAMES)
+                k2 = r.below(10)
+                nids = 0 if k2 == 0 else (r.range(1, 4) if k2 < 8 else r.range(99, 102))
+                pool = cps[p]
+                ids = [r.choice(pool) if nids < 50 else str(i + 10) for i in range(nids)]
+                if nids and r.chance(1, 10):
+                    ids.append("")   # invalid id inside a batch
+                lines.append(msg_line(r.choice(["PauseCrossChains", "UnpauseCrossChains"]), signer, hx(p), *[hx(x) for x in ids]))
+            else:
+                lines.append(msg_line(r.choice(["PauseAction", "UnpauseAction"]), signer, hx(r.choice(ACTION_NAMES + ["ACTION_UNSUPPORTED", "y"] if r.chance(1, 8) else ACTION_NAMES))))
+        elif k < 60:
+            q = r.below(7)
+            if q == 0:
+                lines.append("query PausedProtocols")
+            elif q == 1:
+                lines.append("query PausedActions")
+            elif q == 2:
+                lines.append("query IsProtocolPaused " + hx(r.choice(PROTO_NAMES)))
+            elif q == 3:
+                lines.append("query IsActionPaused " + hx(r.choice(ACTION_NAMES)))
+            elif q == 4:
+                p = r.choice(PROTO_NAMES)
+                lines.append("query IsCrossChainPaused %s %s" % (hx(p), hx(r.choice(cps[p]))))
+            else:
+                lines.append("query PausedCrossChains %s nopage" % hx(r.choice(PROTO_NAMES)))
+        else:
+            # probe transfers to every destination, with and without the fee action
+            route = r.below(3)
+            if route == 0:
+                fwd = cctp_fwd(domain=r.choice([0, 1, 5]))
+                dn = "uusdc"
+            elif route == 1:
+                fwd = int_fwd(r.choice(U[:3]))
+                dn = r.choice(DENOMS)
+            else:
+                fwd = hyp_fwd(tok, domain=r.choice([1, 2]))
+                dn = "uusdc"
+            acts = [fee_action([(U[4], "b", 100)])] if r.chance(1, 2) else None
+            lines.append(orb_pkt("recv", 10 ** 6, fwd, acts, denom=dn))
+    return lines
+
+
+@prop
+class C08(Base):
+    id = "C08"
+    assumptions = ["messages run under the SDK's message-level rollback (cached context written only on success), as the harness executes them through the app's MsgServiceRouter"]
+
+    def streams(self, tier, seed):
+        out = []
+        f = {"msg": ["res", "st"], "recv": ["ack"], "query": ["res", "out", "next", "total"]}
+        for h in range(self.n(tier, 3, 12)):
+            r = Rng(seed * 100000 + 800 + h)
+            lines, toks = scen.base_setup()
+            lines += pause_history(r, self.n(tier, 200, 800), toks)
+            out.append(Stream("S3-pause-history-%d" % h, lines, fields=f, oracle=pause_oracle))
+        return out
+
+
+@prop
+class C09(Base):
+    id = "C09"
+    assumptions = C08.assumptions
+
+    def streams(self, tier, seed):
+        out = []
+        f = {"msg": ["res", "st"], "recv": ["ack", "bal"], "query": ["res", "out"]}
+        for h in range(self.n(tier, 3, 12)):
+            r = Rng(seed * 100000 + 900 + h)
+            lines, toks = scen.base_setup()
+            lines += pause_history(r, self.n(tier, 200, 800), toks, actions_focus=True)
+            out.append(Stream("S3-action-pause-history-%d" % h, lines, fields=f, oracle=pause_oracle))
+        return out
+
+
+def c10_lines(r, n):
+    lines = ["setup -"]
+    signers = [U[0], U[1], ORB, b32(DUST_BYTES), "", " ", "garbage", AUTHORITY.upper(), AUTHORITY + " ", AUTHORITY[:-1], "cosmos1zw7vatnx0vla7gzxucgypz0kfr6965ak7xurzj"]
+    bodies = {
+        "PauseProtocol": [[hx(p)] for p in PROTO_NAMES + ["", "x"]],
+        "UnpauseProtocol": [[hx(p)] for p in PROTO_NAMES + ["", "x"]],
+        "PauseCrossChains": [[hx("PROTOCOL_CCTP")], [hx("PROTOCOL_CCTP"), hx("1")], [hx("PROTOCOL_INTERNAL"), hx("noble"), hx("x")], [hx("x"), hx("1")], [hx("PROTOCOL_CCTP")] + [hx(str(i)) for i in range(101)]],
+        "UnpauseCrossChains": [[hx("PROTOCOL_CCTP")], [hx("PROTOCOL_CCTP"), hx("1")], [hx("PROTOCOL_INTERNAL"), hx("noble")], [hx("x"), hx("1")]],
+        "PauseAction": [[hx(a)] for a in ACTION_NAMES + ["", "x"]],
+        "UnpauseAction": [[hx(a)] for a in ACTION_NAMES + ["", "x"]],
+        "UpdateParams": [["0"], ["1"], ["4294967295"]],
+        "ReplaceDepositForBurn": [[hx(b"\x01" * 10), hx(b"\x02" * 65), hx(b"\x03" * 32), hx(b"\x04" * 32)], ["-", "-", "-", "-"]],
+    }
+    # some state first so that unpause messages would have something to change
+    lines.append(msg_line("PauseProtocol", AUTHORITY, hx("PROTOCOL_CCTP")))
+    lines.append(msg_line("PauseAction", AUTHORITY, hx("ACTION_FEE")))
+    lines.append(msg_line("PauseCrossChains", AUTHORITY, hx("PROTOCOL_INTERNAL"), hx("noble")))
+    for rpc, bs in bodies.items():
+        for b in bs:
+            for sg in signers:
+                lines.append(msg_line(rpc, sg, *b))
+    # the authority with valid content succeeds
+    lines += [msg_line("UnpauseProtocol", AUTHORITY, hx("PROTOCOL_CCTP")), msg_line("UnpauseAction", AUTHORITY, hx("ACTION_FEE")),
+              msg_line("UnpauseCrossChains", AUTHORITY, hx("PROTOCOL_INTERNAL"), hx("noble")), msg_line("UpdateParams", AUTHORITY, "5"),
+              msg_line("PauseProtocol", AUTHORITY, hx("PROTOCOL_HYPERLANE")), msg_line("PauseAction", AUTHORITY, hx("ACTION_SWAP")),
+              msg_line("PauseCrossChains", AUTHORITY, hx("PROTOCOL_CCTP"), hx("1"), hx("5"))]
+    for _ in range(n):
+        rpc = r.choice(sorted(bodies))
+        lines.append(msg_line(rpc, r.choice(signers + [AUTHORITY]), *r.choice(bodies[rpc])))
+    return lines
+
+
+def c10_oracle(steps):
+    out = []
+    prev = None
+    for s in steps:
+        if s.op == "msg":
+            f = s.line.split(" ")
+            signer = unhx(f[2]).decode("utf-8", "replace")
+            if signer != AUTHORITY:
+                if s.impl.get("res") != "err":
+                    out.append((s.i, "unauthorised-accepted: %s signed by %r returned %s" % (f[1], signer, s.impl.get("res"))))
+                if prev is not None and s.impl.get("st") != prev:
+                    out.append((s.i, "unauthorised-changed-state: %s signed by %r changed the module state" % (f[1], signer)))
+                if s.impl.get("req", "-") != "-":
+                    out.append((s.i, "unauthorised-reached-bridge: %s signed by %r reached a bridge" % (f[1], signer)))
+        if s.op == "msgany":
+            signer = unhx(s.line.split(" ")[2]).decode("utf-8", "replace")
+            if signer != AUTHORITY and (s.impl.get("res") not in ("err",) or s.impl.get("unchanged") != "true"):
+                out.append((s.i, "unauthorised-accepted: %s signed by %r: res=%s unchanged=%s" % (s.line.split(" ")[1], signer, s.impl.get("res"), s.impl.get("unchanged"))))
+        if "st" in s.impl:
+            prev = s.impl["st"]
+    return out
+
+
+def c10_surface_lines(r, n):
+    """every Msg RPC registered by the module, enumerated from the service descriptors at run time"""
+    from proto import Proc, IMPL
+    p = Proc([IMPL])
+    p.ask("setup -")
+    out = p.ask("listrpcs")
+    p.close()
+    rpcs = [x.split(":") for x in out[len("rpcs="):].split(",") if x]
+    lines = ["setup -", msg_line("PauseProtocol", AUTHORITY, hx("PROTOCOL_CCTP")), msg_line("PauseAction", AUTHORITY, hx("ACTION_FEE"))]
+    signers = [U[0], ORB, "", "garbage", AUTHORITY.upper(), b32(DUST_BYTES)]
+    for name, inp, sfield in rpcs:
+        for sg in signers:
+            for k in range(n):
+                lines.append("msgany %s %s %d" % (inp, hx(sg), r.below(10 ** 9)))
+    return lines, rpcs
+
+
+@prop
+class C10(Base):
+    id = "C10"
+    assumptions = ["ante handlers and signature verification are outside the module; the property is about the handlers' own authority check"]
+
+    def streams(self, tier, seed):
+        r = Rng(seed * 1000 + 10)
+        f = {"msg": ["res", "st"]}
+        surf, rpcs = c10_surface_lines(r.fork(2), self.n(tier, 8, 50))
+        return [Stream("S3-rpc-signer-body-grid", c10_lines(r.fork(1), self.n(tier, 200, 2000)), fields=f, oracle=c10_oracle),
+                Stream("S3-descriptor-enumerated-surface", surf, model=False, oracle=c10_oracle, note="%d RPCs from the service descriptors: %s" % (len(rpcs), ",".join(x[0].split("/")[-1] for x in rpcs)))]
